@@ -5,7 +5,7 @@ import os
 
 from .facts import (AnalysisBroken, walk_expr, walk_all_exprs, walk_stmts, show, strip_casts, strip_copies,
                     member_path, stmt_children, Facts)
-from .genrules import GenModel, callers_of, field_chain, is_call
+from .genrules import GenModel, callers_of, field_chain, is_call, direct_exprs, guarded, guard_implies
 from .cfg import CFG
 
 REGTYPE = 'RegisterIndex'
@@ -541,7 +541,7 @@ def c03(rep, tier):
                 txt = c['c']
                 if txt.get('k') == 'bin' and txt['op'] == '==' and any(x.get('k') == 'int' and x['v'] == 1 for x in walk_expr(txt['r'])):
                     lab = [x for x in walk_expr(txt['l']) if is_call(x, '::operator[]') and field_chain(x['obj'])[1][-1:] == ['labels']]
-                    call_err = [x for x in walk_all_exprs(c['t']) if is_call(x, 'GenState::err') and 'UNKNOWN_MARK' in show(x)]
+                    call_err = [x for x in direct_exprs(c['t']) if is_call(x, 'GenState::err') and 'UNKNOWN_MARK' in show(x)]
                     if lab and call_err:
                         loopok = True
     G.check(loopok, 'popSymbols: unset marks', 'every mark whose label is still -1 is reported as UNKNOWN_MARK',
